@@ -20,6 +20,7 @@ import (
 	"verif/harness/gen"
 	"verif/harness/model"
 	"verif/harness/store"
+	"verif/harness/xplore"
 )
 
 func init() {
@@ -110,6 +111,9 @@ type c11Case struct {
 	File   fileCase `json:"file,omitempty"`
 	Fanout int      `json:"fanout,omitempty"`
 	Names  []string `json:"names,omitempty"`
+	// Kind "concurrent": one schedule of two builds through a shared LinkSystem
+	Pair    string `json:"pair,omitempty"`
+	Choices []int  `json:"choices,omitempty"`
 }
 
 func (c c11Case) String() string {
@@ -156,6 +160,18 @@ func trimNames(n []string) []string {
 }
 
 func (c c11Case) run(viol func(sig, detail string), r *core.Run) {
+	if c.Kind == "concurrent" {
+		for _, pr := range c11Pairs() {
+			if c11PairName(pr) == c.Pair {
+				gen.WithWidth(2, func() {
+					xplore.RunOne(c.Choices, nil, 0, func(x *xplore.Ctx) string { return c11ConcurrentBody(pr, c11Solo(pr), x, viol) })
+				})
+				return
+			}
+		}
+		viol("harness-bad-case", "unknown pair "+c.Pair)
+		return
+	}
 	var s *store.Store
 	var root cid.Cid
 	var sz uint64
@@ -281,7 +297,130 @@ func (c c11Case) run(viol func(sig, detail string), r *core.Run) {
 	}
 }
 
+// c11Concurrent: two builds run through ONE shared *LinkSystem under the
+// cooperative scheduler (every storage open / write / commit is a scheduling
+// point): whatever the interleaving, each build returns the link and size it
+// returns alone, and every recorded size passes the audit.
+type c11Build struct {
+	name string
+	run  func(s *store.Store, ls *ipld.LinkSystem) (ipld.Link, uint64, error)
+}
+
+func c11Pairs() [][2]c11Build {
+	fileOf := func(n int, chunker string) c11Build {
+		return c11Build{fmt.Sprintf("file-%d-%s", n, chunker), func(s *store.Store, ls *ipld.LinkSystem) (ipld.Link, uint64, error) {
+			return builder.BuildUnixFSFile(bytes.NewReader(gen.Content(n, 3, "distinct")), chunker, ls)
+		}}
+	}
+	dirOf := func(names ...string) c11Build {
+		return c11Build{fmt.Sprintf("dir%q", names), func(s *store.Store, ls *ipld.LinkSystem) (ipld.Link, uint64, error) {
+			links, err := gen.PBLinks(gen.Leaves(s, names))
+			if err != nil {
+				return nil, 0, err
+			}
+			return builder.BuildUnixFSDirectory(links, ls)
+		}}
+	}
+	symOf := func(n int) c11Build {
+		return c11Build{fmt.Sprintf("symlink-%d", n), func(s *store.Store, ls *ipld.LinkSystem) (ipld.Link, uint64, error) {
+			return builder.BuildUnixFSSymlink(strings.Repeat("t", n), ls)
+		}}
+	}
+	return [][2]c11Build{
+		{fileOf(3, "size-3"), fileOf(1000, "size-1000")},
+		{fileOf(7, "size-3"), fileOf(2, "size-3")},
+		{fileOf(3, "size-3"), dirOf("a", "bb", "ccc")},
+		{symOf(5), fileOf(400, "size-500")},
+		{dirOf("x"), dirOf("a long entry name", "b", "c", "d")},
+	}
+}
+
+func c11PairName(pr [2]c11Build) string { return pr[0].name + " || " + pr[1].name }
+
+func c11Solo(pr [2]c11Build) [2]string {
+	solo := [2]string{}
+	for i := 0; i < 2; i++ {
+		s := store.New()
+		l, sz, err := pr[i].run(s, s.LinkSystem())
+		solo[i] = fmt.Sprintf("%v/%d/%v", l, sz, err)
+	}
+	return solo
+}
+
+// c11ConcurrentBody is one scheduled execution (link width must be 2).
+func c11ConcurrentBody(pr [2]c11Build, solo [2]string, x *xplore.Ctx, viol func(sig, detail string)) string {
+	desc := c11PairName(pr)
+	s := store.New()
+	ls := s.LinkSystem() // one LinkSystem value, shared by pointer
+	point := func() error { schedLoadPoint(); return nil }
+	s.OnOpen = func(int) error { return point() }
+	s.OnWrite = func(int) error { return point() }
+	s.OnCommit = func(int, cid.Cid) error { return point() }
+	roots := [2]ipld.Link{}
+	body := func(i int) func() string {
+		return func() string {
+			l, sz, err := pr[i].run(s, ls)
+			roots[i] = l
+			return fmt.Sprintf("%v/%d/%v", l, sz, err)
+		}
+	}
+	sc := runScheduled(x, nil, nil, []func() string{body(0), body(1)})
+	s.OnOpen, s.OnWrite, s.OnCommit = nil, nil, nil
+	if sc.deadlock != "" {
+		viol("deadlock concurrent-builds", desc+": "+sc.deadlock)
+	}
+	for i, t := range sc.threads {
+		if t.panicv != nil {
+			viol("panic concurrent-builds", fmt.Sprintf("%s: build %d: %v (choices %v)", desc, i, t.panicv, x.Choices))
+		} else if t.result != solo[i] {
+			viol("returned-size concurrent", fmt.Sprintf("%s: build %d returned %s, alone it returns %s (schedule choices %v)", desc, i, t.result, solo[i], x.Choices))
+		}
+	}
+	for i, l := range roots {
+		if l != nil {
+			sizeAudit(s, l.(cidlink.Link).Cid, func(sig, detail string) {
+				viol(sig+" concurrent", fmt.Sprintf("%s: build %d: %s (choices %v)", desc, i, detail, x.Choices))
+			})
+		}
+	}
+	return fmt.Sprint(sc.threads[0].result, sc.threads[1].result)
+}
+
+func c11Concurrent(r *core.Run) {
+	var execs int64
+	for _, pr := range c11Pairs() {
+		pr := pr
+		desc := c11PairName(pr)
+		ex := &xplore.Explorer{Bound: 2, Horizon: 4000, Replay: 2, MaxExecs: 200000, OnDiverge: func(ch []int, a, b string) {
+			r.InternalError(fmt.Sprintf("C11 concurrent: nondeterministic replay %s %v: %q vs %q", desc, ch, a, b))
+		}}
+		gen.WithWidth(2, func() {
+			solo := c11Solo(pr)
+			ex.Explore(func(x *xplore.Ctx) string {
+				return c11ConcurrentBody(pr, solo, x, func(sig, detail string) {
+					r.Violate(sig, detail, c11Case{Kind: "concurrent", Pair: desc, Choices: append([]int{}, x.Choices...)})
+				})
+			}, func(res xplore.Result) {
+				if res.Panic != nil {
+					r.Violate("panic scheduler", fmt.Sprint(res.Panic), nil)
+				}
+			})
+		})
+		execs += int64(ex.Stats.Executions)
+		r.Transitions.Add(int64(ex.Stats.ChoicePoints))
+		r.States.Add(1)
+		r.Distinct("concurrent " + desc)
+		if ex.Stats.Capped {
+			r.Cap("execution cap hit for concurrent " + desc)
+		}
+	}
+	r.Evaluations.Add(execs)
+	r.Set("concurrent_build_schedules", execs)
+	r.Set("concurrent_build_preemption_bound", 2)
+}
+
 func runC11(r *core.Run) {
+	c11Concurrent(r)
 	r.Rule("bounded-exhaustive: every file shape of the small family (distinct and equal chunks: de-duplicated storage < tree sum), every subset of the name universe as sharded directory at each fanout, plain directories, directories of builder-written files; oracle = independent recursive tree sum / content count over stored blocks (own dag-pb parser + gogo unixfs_pb); distinct = distinct cases")
 	var cases []c11Case
 	var files []fileCase
